@@ -77,6 +77,62 @@ func c15(r *core.Run) {
 	}
 	r.Floor("R2.liberr", 25)
 
+	// R2b the arithmetic methods use the arithmetic error mapping (in which a too-small result is not an error),
+	// the saturating methods the saturation helper — never the conversion handler
+	for _, t := range []string{"Fix128Value", "UFix128Value"} {
+		for _, m := range []string{"Plus", "Minus", "Mul", "Div", "Mod", "Negate", "MultiplyDivide", "SaturatingPlus", "SaturatingMinus", "SaturatingMul", "SaturatingDiv"} {
+			fn := w.Fn("interpreter", t, m)
+			if fn == nil {
+				continue
+			}
+			want := "handleFixedpointError"
+			if strings.HasPrefix(m, "Saturating") {
+				want = "SaturationArithmaticResult"
+			}
+			for _, c := range core.CallsTo(fn, true, isFix) {
+				// the error must reach the expected handler: either as handler argument (no result) or passed to the saturation helper
+				okH := false
+				for _, e := range core.ErrResults(c) {
+					if refs := e.Referrers(); refs != nil {
+						for _, ref := range *refs {
+							if cc, isCall := ref.(ssa.CallInstruction); isCall {
+								if o := core.Callee(cc); o != nil && strings.Contains(o.Name(), want) {
+									okH = true
+								}
+							}
+						}
+					}
+				}
+				r.Check(okH, "R2.handler", "interpreter.("+t+")."+m+" -> "+core.Callee(c).Name()+" error handler", posOf(c),
+					"library error is mapped by "+want, "the library error of an arithmetic operation is not mapped by "+want+" (e.g. handed to the conversion handler, which treats a too-small-to-represent result as an underflow error)")
+			}
+		}
+	}
+	r.Floor("R2.handler", 16)
+
+	// R2c checked operations never delegate to their saturating siblings (a clamped intermediate would hide an out-of-range result)
+	for _, t := range []string{"Fix64Value", "UFix64Value", "Fix128Value", "UFix128Value"} {
+		for _, m := range []string{"Plus", "Minus", "Mul", "Div", "Mod", "Negate", "MultiplyDivide"} {
+			fn := w.Fn("interpreter", t, m)
+			if fn == nil {
+				continue
+			}
+			bad := ""
+			for _, c := range core.Calls(fn, true) {
+				name := ""
+				if o := core.Callee(c); o != nil {
+					name = o.Name()
+				}
+				if strings.HasPrefix(name, "Saturating") {
+					bad = name
+				}
+			}
+			r.Check(bad == "", "R2.nosaturating", "interpreter.("+t+")."+m+": no saturating delegate", fn.Pos(), "only checked operations are used",
+				"the checked operation calls "+bad+": an out-of-range intermediate is clamped instead of failing")
+		}
+	}
+	r.Floor("R2.nosaturating", 24)
+
 	// R3 rounding arguments
 	for _, t := range []string{"Fix128Value", "UFix128Value"} {
 		for _, m := range []string{"Mul", "Div", "SaturatingMul", "SaturatingDiv", "MultiplyDivide"} {
